@@ -813,7 +813,8 @@ where
         L: LayoutProps,
     {
         let pos = self.pos().addr().get();
-        let end = unsafe { self.header.as_ref() }.end.addr().get();
+        // This may be a dummy chunk, whose header is a `ChunkHeader<()>` that can be smaller than `ChunkHeader<A>`.
+        let end = unsafe { self.header.cast::<ChunkHeader>().as_ref() }.end.addr().get();
 
         let start = if S::UP { pos } else { end };
         let end = if S::UP { end } else { pos };
@@ -836,7 +837,8 @@ where
 
     #[inline(always)]
     pub(crate) fn pos(self) -> NonNull<u8> {
-        unsafe { self.header.as_ref().pos.get() }
+        // This may be a dummy chunk, whose header is a `ChunkHeader<()>` that can be smaller than `ChunkHeader<A>`.
+        unsafe { self.header.cast::<ChunkHeader>().as_ref().pos.get() }
     }
 
     #[inline(always)]
